@@ -12,10 +12,12 @@ DEMOS=$(ls $D/*.rs 2>/dev/null)
 echo "== seed $D  property=$PROP crate=$CRATE demos=$(echo $DEMOS | xargs -n1 basename 2>/dev/null | tr '\n' ' ')"
 mkdir -p $W/$CRATE/tests
 run_demo() { local ok=0; for f in $DEMOS; do cp $f $W/$CRATE/tests/; n=$(basename $f .rs); (cd $W && cargo test -q --offline -p $(grep -m1 '^name' $W/$CRATE/Cargo.toml | cut -d'"' -f2) --test $n >/tmp/mutchk-demo.log 2>&1) || ok=1; rm -f $W/$CRATE/tests/$(basename $f); done; return $ok; }
-if [ -n "$DEMOS" ]; then run_demo && echo "demo without change: PASS (expected)" || { echo "demo without change: FAIL (unexpected)"; tail -5 /tmp/mutchk-demo.log; }; fi
+if [ -z "${SKIP_CONFIRM:-}" ] && [ -n "$DEMOS" ]; then run_demo && echo "demo without change: PASS (expected)" || { echo "demo without change: FAIL (unexpected)"; tail -5 /tmp/mutchk-demo.log; }; fi
 git apply $D/patch.diff || { echo "patch does not apply"; exit 3; }
+if [ -z "${SKIP_CONFIRM:-}" ]; then
 (cargo test -q --workspace --offline >/tmp/mutchk-suite.log 2>&1) && echo "suite with change: PASS (expected)" || { echo "suite with change: FAIL (unexpected)"; grep -E "FAILED|panicked|error" /tmp/mutchk-suite.log | head -5; }
 if [ -n "$DEMOS" ]; then run_demo && echo "demo with change: PASS (unexpected)" || echo "demo with change: FAIL (expected)"; fi
+fi
 cd /verif
 for c in $CHECKS; do
   echo "-- ./check $c on the changed tree"
